@@ -55,7 +55,7 @@ func (ser *MultiEpoch) getGsfaReadersInEpochDescendingOrderForSlotRange(ctx cont
 	startEpoch := slottools.CalcEpochForSlot(startSlot)
 	endEpoch := slottools.CalcEpochForSlot(endSlot)
 
-	epochs := make([]*Epoch, 0, endEpoch-startEpoch+1)
+	epochs := make([]*Epoch, 0, len(ser.epochs))
 	for _, epoch := range ser.epochs {
 		if epoch.Epoch() >= startEpoch && epoch.Epoch() <= endEpoch {
 			epochs = append(epochs, epoch)
